@@ -45,6 +45,11 @@ func (e *encoder) encodeValue(value interface{}, f *field) error {
 		t := value.(time.Time)
 		_, offs := t.Zone()
 		u32 := uint32(int64(encodeTime(t)) + int64(offs))
+		if IsBaseTime(t) {
+			// Unset (invalid) local time: a literal 0 would decode as a
+			// valid local time relative to the reference timestamp.
+			u32 = 0xFFFFFFFF
+		}
 		if err := binary.Write(e.w, e.arch, u32); err != nil {
 			return fmt.Errorf("can't write local time type: %w", err)
 		}
